@@ -22,6 +22,11 @@ SizeTriplesQ == {<<1000, 1000, 1000>>, <<100, 33, 9>>, <<5, 1000, 64>>, <<100000
 Seeds(R, Ts) == {[res |-> <<x, y, z>>, T |-> t, s |-> 0] : x \in R, y \in R, z \in R, t \in Ts}
 SeedsFull == Seeds(R1, {1, 2, 3, 4, 6, 8})
 SeedsQuick == Seeds(RQ, {1, 2, 4, 6})
+\* strongly anisotropic seeds with tiny targets (excess-anisotropy reduction)
+RX == {<<1,2>>, <<1,1>>, <<12,1>>, <<16,1>>, <<40,1>>, <<400,1>>}
+SeedsExtreme == Seeds(RX, {1, 2})
+SeedsFullX == SeedsFull \cup SeedsExtreme
+SeedsQuickX == SeedsQuick \cup SeedsExtreme
 SeedsIso == {[res |-> <<x, x, x>>, T |-> t, s |-> sc] : x \in R1, t \in 1..8, sc \in {0, 3, 6}}
 CONSTANTS SeedSpace, SizeSpace
 
@@ -40,12 +45,13 @@ Next == /\ phase = "seed"
               /\ cls' = ClassOf(Inst(seed, sz, mx))
 Spec == Init /\ [][Next]_mvars
 
-Report == phase = "cls" => PrintT(<<"CLS", ToJson(cls)>>)
-\* the design satisfies the oracle (holds on isotropic inputs; known to fail
-\* on anisotropic ones with the switches in the code's position)
-DesignValid == phase = "cls" => cls[1] = ""
-\* conforming stop rule: the last scale always fits
 HasLetter(x) == \E k \in 1..Len(cls[1]) : SubSeq(cls[1], k, k) = x
+Report == phase = "cls" => PrintT(<<"CLS", ToJson(cls)>>)
+\* the design satisfies the oracle and never raises: holds on the whole input
+\* space with every switch in the conforming position; each deviating
+\* position breaks its own clause (MC_ScaleGen_minus / _pairs / _keys / _once)
+DesignValid == phase = "cls" => cls[1] = ""
+NoRaise == phase = "cls" => ~HasLetter("X")
 PairsOk == phase = "cls" => ~HasLetter("P")
 KeysOk == phase = "cls" => ~HasLetter("K")
 LastFits == phase = "cls" => \A k \in 1..Len(cls[1]) : SubSeq(cls[1], k, k) # "L"
